@@ -1543,9 +1543,20 @@ func (g *pgProgGen) listToInt(e *pgGenv, size int) *pgNode {
 	case 2:
 		return pgNMethod("method", l, "single")
 	case 3, 4, 5, 6:
-		// a list stage consumed at once
+		// a list stage consumed at once; the mapReduce fingerprint depends on every item and on the order
 		if !g.illTyped {
-			return pgNMethod("method", g.listStage(l, e, p[1]), g.oneOf([]string{"sum", "size", "first", "last"}))
+			st := g.listStage(l, e, p[1])
+			switch g.pick(5) {
+			case 0:
+				return pgNMethod("method", st, "size")
+			case 1:
+				return pgNMethod("method", st, "sum")
+			case 2:
+				return pgNMethod("method", st, g.oneOf([]string{"first", "last"}))
+			}
+			ps := g.freshNames(e, 2)
+			return pgNMethod("method", st, "mapReduce", pgNInt(0),
+				pgNClo(ps, pgNOp("+", pgNOp("*", pgNId(ps[0]), pgNInt(3)), pgNId(ps[1]))))
 		}
 	}
 	ps := g.freshNames(e, 1)
@@ -1557,6 +1568,19 @@ func (g *pgProgGen) listToInt(e *pgGenv, size int) *pgNode {
 // list stages with callbacks of two or more parameters (or a second list) on an int list l; the
 // callbacks are total arithmetic / comparisons on ints, as for map and accept
 func (g *pgProgGen) listStage(l *pgNode, e *pgGenv, size int) *pgNode {
+	if g.chance(0.5) {
+		// a receiver with enough items (and repeated values) for the stage to show what it does
+		k := 3 + g.pick(4)
+		items := make([]*pgNode, k)
+		for i := range items {
+			items[i] = pgNInt(int64(g.pick(4)))
+		}
+		if g.chance(0.5) {
+			l = pgNOp("+", pgNList(items...), l)
+		} else {
+			l = pgNList(items...)
+		}
+	}
 	ints := func(k int) ([]string, *pgGenv) {
 		ps := g.freshNames(e, k)
 		ts := make([]*pgTy, k)
@@ -1616,6 +1640,9 @@ func (g *pgProgGen) typed(t *pgTy, e *pgGenv, size int, allowLet bool) *pgNode {
 	}
 	switch t.K {
 	case "int":
+		if !g.illTyped && size >= 4 && g.chance(0.07) {
+			return g.listToInt(e, size)
+		}
 		c := g.pick(100)
 		switch {
 		case c < 40:
